@@ -581,6 +581,7 @@ namespace cds { namespace intrusive {
                 array_node * pNode = m_pNode;
                 size_t idx = m_idx + 1;
                 size_t nodeSize = m_pNode->pParent ? arrayNodeSize : headSize;
+                back_off bkoff;
 
                 for (;;) {
                     if (idx < nodeSize) {
@@ -593,8 +594,9 @@ namespace cds { namespace intrusive {
                             nodeSize = arrayNodeSize;
                         }
                         else if (slot.bits() == base_class::flag_array_converting ) {
-                            // the slot is converting to array node right now - skip the node
-                            ++idx;
+                            // the slot is converting to array node right now:
+                            // wait until the conversion is done otherwise the items of the new array node would be missed
+                            bkoff();
                         }
                         else {
                             if (slot.ptr()) {
@@ -639,6 +641,7 @@ namespace cds { namespace intrusive {
                 array_node * pNode = m_pNode;
                 size_t idx = m_idx - 1;
                 size_t nodeSize = m_pNode->pParent ? arrayNodeSize : headSize;
+                back_off bkoff;
 
                 for (;;) {
                     if (idx != endIdx) {
@@ -651,8 +654,9 @@ namespace cds { namespace intrusive {
                             idx = nodeSize - 1;
                         }
                         else if (slot.bits() == base_class::flag_array_converting ) {
-                            // the slot is converting to array node right now - skip the node
-                            --idx;
+                            // the slot is converting to array node right now:
+                            // wait until the conversion is done otherwise the items of the new array node would be missed
+                            bkoff();
                         }
                         else {
                             if (slot.ptr()) {
